@@ -944,7 +944,6 @@ class VF:
         return T.sym('dead')
 
     def ev_Continue(self, n):
-        self.note('continue inside loop: iteration-end state not merged', n)
         if self.loop_exits:
             self.loop_exits[-1].append(('continue', n.get('label'), T.land(*self.pc_since_loop()), dict(self.store)))
         self.dead = True
@@ -1052,6 +1051,30 @@ class VF:
                     st[k] = self.read(Place(*k))
                 self.store = end_store
             ls.exit_states.append(st)
+        # a `continue` just ends the iteration early: fold its state into the iteration-end values and drop the exit
+        # (next := ite(cond_continue, state at the continue, fall-through state))
+        keep_e, keep_s = [], []
+        for (kind, label, cond), st in zip(ls.exits, ls.exit_states):
+            if kind == 'continue' and st:          # (break / continue are attributed to the innermost loop throughout the engine)
+                for k in ls.lh:
+                    sv = st.get(k)
+                    try:
+                        svt = self.to_term(sv) if sv is not None else None
+                    except Exception:
+                        svt = None
+                    if svt is None:
+                        continue
+                    nx = ls.next.get(k)
+                    try:
+                        nxt_ = self.to_term(nx) if nx is not None else None
+                    except Exception:
+                        nxt_ = None
+                    ls.next[k] = svt if nxt_ is None else T.ite(cond, svt, nxt_)
+                ls.falls_through = True
+            else:
+                keep_e.append((kind, label, cond))
+                keep_s.append(st)
+        ls.exits, ls.exit_states = keep_e, keep_s
         self.dead = False
         # after the loop: exit symbols
         self.store = dict(s0)
